@@ -205,6 +205,114 @@ fn cfg_liq(cw20: bool, fees: bool, plr: u128) -> Cfg {
     }
 }
 
+/// A pairwise covering array over the configuration dimensions {collateral, fees, partial ratio
+/// 0/25%/100%, margin band (10%/6.25% vs 5%/5%), liquidation fee zero/non-zero, fluctuation limit
+/// 0/5%, insurance fund rich/poor}: every pair of values of two dimensions occurs in some row
+/// (greedy construction over the 192-row product, deterministic).
+pub fn covering_configs() -> Vec<Cfg> {
+    let dims: [usize; 7] = [2, 2, 3, 2, 2, 2, 2];
+    let mut all: Vec<[usize; 7]> = vec![];
+    let mut idx = [0usize; 7];
+    loop {
+        all.push(idx);
+        let mut i = 0;
+        loop {
+            idx[i] += 1;
+            if idx[i] < dims[i] {
+                break;
+            }
+            idx[i] = 0;
+            i += 1;
+            if i == 7 {
+                break;
+            }
+        }
+        if i == 7 {
+            break;
+        }
+    }
+    let mut uncovered: std::collections::BTreeSet<(usize, usize, usize, usize)> = Default::default();
+    for a in 0..7 {
+        for b in (a + 1)..7 {
+            for x in 0..dims[a] {
+                for y in 0..dims[b] {
+                    uncovered.insert((a, x, b, y));
+                }
+            }
+        }
+    }
+    let mut rows = vec![];
+    while !uncovered.is_empty() {
+        let best = all
+            .iter()
+            .max_by_key(|r| {
+                let mut n = 0;
+                for a in 0..7 {
+                    for b in (a + 1)..7 {
+                        if uncovered.contains(&(a, r[a], b, r[b])) {
+                            n += 1;
+                        }
+                    }
+                }
+                (n, std::cmp::Reverse(**r))
+            })
+            .unwrap()
+            .clone();
+        for a in 0..7 {
+            for b in (a + 1)..7 {
+                uncovered.remove(&(a, best[a], b, best[b]));
+            }
+        }
+        rows.push(best);
+    }
+    rows.into_iter()
+        .map(|r| {
+            let band = r[3] == 0;
+            let mut c = Cfg {
+                cw20: r[0] == 0,
+                toll: if r[1] == 1 { 3_000 } else { 0 },
+                spread: if r[1] == 1 { 7_000 } else { 0 },
+                plr: [0, 250_000, D][r[2]],
+                imr: if band { 100_000 } else { 50_000 },
+                mmr: if band { 62_500 } else { 50_000 },
+                liq_fee: if r[4] == 0 { 0 } else if band { 25_000 } else { 50_000 },
+                fluct: if r[5] == 0 { 0 } else { 50_000 },
+                ..Cfg::default()
+            };
+            if r[6] == 1 {
+                c.if_funds = 2 * D;
+            }
+            c
+        })
+        .collect()
+}
+
+/// shallow explorations over the covering array (breadth over configurations)
+pub fn push_sweep(exps: &mut Vec<Exp>, depth: usize) {
+    let mut al = StdAlpha::basic(&T2);
+    al.sizes = vec![SIZE_M, (2 * D, 10 * D)];
+    al.liquidators = vec!["liq", "bob"];
+    al.rel_prices = vec![(1, 1)];
+    al.prices = vec![8 * D];
+    al.blocks = vec![15, 3900];
+    let alpha = al.acts();
+    let seeds = vec![
+        vec![],
+        seed_liquidatable(),
+        seed_liquidatable_mirror(),
+        seed_slightly_under(),
+        seed_slightly_under_mirror(),
+        seed_funded(),
+        seed_band_liquidatable(),
+        seed_vault_drained(),
+    ];
+    for c in covering_configs() {
+        let mut e = Exp::new("configuration sweep", c, alpha.clone(), seeds.clone(), depth);
+        e.traders = T3.to_vec();
+        exps.push(e);
+    }
+}
+
 fn with_funding_due(seed: Vec<Act>) -> Vec<Act> {
     seed.into_iter()
         .map(|a| match a {
@@ -280,6 +388,7 @@ pub fn run_c02(tier: Tier) -> i32 {
             exps.push(Exp::new("three-traders", cfg_with(true, false, 250_000), a3.acts(), vec![vec![], seed_liquidatable()], 5));
         }
     }
+    push_sweep(&mut exps, tier.pick(2, 3));
     run_exps(&mut run, step_c02, exps, |_| {});
     run.finish()
 }
@@ -322,6 +431,7 @@ pub fn run_c03(tier: Tier) -> i32 {
             }
         }
     }
+    push_sweep(&mut exps, tier.pick(2, 3));
     run_exps(&mut run, step_c03, exps, |_| {});
     run.finish()
 }
@@ -415,6 +525,7 @@ pub fn run_c10(tier: Tier) -> i32 {
             exps.push(mk_full(cfull, 3));
         }
     }
+    push_sweep(&mut exps, tier.pick(2, 2));
     run_exps(&mut run, step_c10, exps, |_| {});
     run.finish()
 }
@@ -473,6 +584,7 @@ pub fn run_c04(tier: Tier) -> i32 {
             }
         }
     }
+    push_sweep(&mut exps, tier.pick(2, 3));
     run_exps(&mut run, step_c04, exps, |_| {});
     run.finish()
 }
@@ -569,6 +681,7 @@ pub fn run_c05(tier: Tier) -> i32 {
             }
         }
     }
+    push_sweep(&mut exps, tier.pick(2, 3));
     run_exps(&mut run, step_c05, exps, |_| {});
     run.finish()
 }
@@ -729,6 +842,7 @@ pub fn run_c06(tier: Tier) -> i32 {
             push(mk(true, 62_500, 25_000, 250_000), 4);
         }
     }
+    push_sweep(&mut exps, tier.pick(2, 3));
     run_exps(&mut run, step_c06, exps, |_| {});
     run.finish()
 }
@@ -793,6 +907,7 @@ pub fn run_c07(tier: Tier) -> i32 {
             }
         }
     }
+    push_sweep(&mut exps, tier.pick(2, 3));
     run_exps(&mut run, step_c07, exps, |_| {});
     run.finish()
 }
@@ -891,6 +1006,7 @@ pub fn run_c08(tier: Tier) -> i32 {
         c.imr = 100_000;
         exps.push(Exp { setup: None, name: "fault sweep partial close".into(), cfg: c, traders: T2.to_vec(), seeds: vec![vec![]], alpha: Alpha::Dyn(alpha_c15), depth: tier.pick(3, 4), init_mon: Value::Null });
     }
+    push_sweep(&mut exps, tier.pick(1, 2));
     run_exps(&mut run, step_c08, exps, |_| {});
     run.finish()
 }
@@ -928,6 +1044,7 @@ pub fn run_c11(tier: Tier) -> i32 {
             }
         }
     }
+    push_sweep(&mut exps, tier.pick(2, 3));
     run_exps(&mut run, step_c11, exps, |_| {});
     run.finish()
 }
@@ -969,6 +1086,7 @@ pub fn run_c12(tier: Tier) -> i32 {
             exps.push(Exp::new("fees", mk(false, 3_000, 7_000), alpha.clone(), seeds.clone(), 4));
         }
     }
+    push_sweep(&mut exps, tier.pick(2, 3));
     run_exps(&mut run, step_c12, exps, |_| {});
     run.finish()
 }
@@ -1078,6 +1196,7 @@ pub fn run_c16(tier: Tier) -> i32 {
             push(250_000, 6);
         }
     }
+    push_sweep(&mut exps, tier.pick(2, 3));
     run_exps(&mut run, step_c16, exps, |_| {});
     run.finish()
 }
